@@ -1,6 +1,6 @@
 (* C06_Proofs.v — lemmas and proofs for the FITS round-trip property (C06). *)
 From Coq Require Import List NArith ZArith Bool Lia ZifyBool Decimal DecimalN DecimalPos Arith.
-From PS Require Import Generated_fits FitsModel.
+From PS Require Import Generated_fits FitsModel FitsWf.
 Import ListNotations.
 Open Scope N_scope.
 
@@ -125,16 +125,12 @@ Proof. induction n; simpl; auto. rewrite IHn. reflexivity. Qed.
 Lemma strip_trailing_repeat l n : strip_trailing (l ++ repeat sp n) = strip_trailing l.
 Proof. induction l; simpl. apply strip_trailing_blank. rewrite IHl. reflexivity. Qed.
 
-Definition no_char (x : N) (l : str) : bool := forallb (fun c => negb (c =? x)) l.
-
 Lemma until_space_app key n : no_char sp key = true -> until_space (key ++ repeat sp n) = key.
 Proof.
   induction key; simpl; intros H.
   - destruct n; reflexivity.
   - apply andb_true_iff in H as [H1 H2]. apply negb_true_iff in H1. rewrite H1. f_equal. auto.
 Qed.
-
-Definition tok_chars (t : str) : bool := forallb (fun c => negb (c =? sp) && negb (c =? slash)) t.
 
 Lemma take_tok_app t n : tok_chars t = true -> take_tok (t ++ repeat sp n) = t.
 Proof.
@@ -149,13 +145,6 @@ Proof. intros. unfold pad_right. rewrite app_length, repeat_length. lia. Qed.
 
 (* ================================================================================================ *)
 (* D. quoted strings *)
-Fixpoint paired (l : str) : bool :=
-  match l with
-  | [] => true
-  | c :: r => if c =? quote then match r with c2 :: r2 => (c2 =? quote) && paired r2 | [] => false end
-              else paired r
-  end.
-
 Lemma scan_str_cons c r : scan_str (c :: r) =
   if c =? quote then
     match r with
@@ -190,25 +179,6 @@ Qed.
 
 (* ================================================================================================ *)
 (* E. cards *)
-Definition tok_ok (t : str) : bool :=
-  tok_chars t && match t with c :: _ => negb (c =? quote) | [] => true end.
-
-Definition wf_value (v : cardvalue) : bool :=
-  match v with VStr raw => paired raw | VStrOpen _ => false | VTok t => tok_ok t end.
-
-Definition wf_card (c : card) : bool :=
-  (length (card_text c) <=? 80)%nat &&
-  match c with
-  | Card key v =>
-      wf_value v &&
-      if (length key <=? 8)%nat then no_char sp key && negb (is_commentary8 (pad_right 8 key))
-      else no_char eqc key && negb (hd sp key =? sp) && negb (last key sp =? sp)
-  | Commentary key text =>
-      no_char sp key && (length key <=? 8)%nat && str_eqb (strip_trailing text) text &&
-      negb (is_end (encode_card c)) && negb (starts_with s_HIER9 (encode_card c)) &&
-      (is_commentary8 (pad_right 8 key) || negb (starts_with [eqc; sp] (skipn 8 (encode_card c))))
-  end.
-
 Lemma parse_value_text v n : wf_value v = true -> parse_value (value_text v ++ repeat sp n) = v.
 Proof.
   destruct v as [raw|raw|t]; simpl; intros W; try discriminate.
@@ -357,19 +327,6 @@ Proof.
   induction cs; simpl; auto. intros W. apply andb_true_iff in W as [W1 W2].
   rewrite app_length, encode_card_length, IHcs; auto. apply wf_card_len; auto.
 Qed.
-
-Definition wf_hdu (h : hdu) : bool :=
-  forallb wf_card (h_cards h) &&
-  match hdu_layout (h_cards h) with
-  | Ok ly => match word_size (l_bitpix ly) with
-             | Some ws => (length (h_data h) =? N.to_nat (layout_words ly))%nat &&
-                          forallb (fun w => w <? 256 ^ N.of_nat ws) (h_data h)
-             | None => false
-             end
-  | Error _ => false
-  end.
-
-Definition wf_doc (d : fitsdoc) : bool := match d with [] => false | _ => forallb wf_hdu d end.
 
 Lemma decode_hdu_encoded h : wf_hdu h = true -> forall fuel rest, (length (h_cards h) < fuel)%nat ->
   decode_hdu fuel (encode_hdu h ++ rest) = Ok (h, rest).
